@@ -630,8 +630,8 @@ package tacquito
 //@   ensures wfSessions(s)
 //@   ensures[C08] err == nil ==> h.SeqNo mod 2 == 1
 //@   ensures[C08] (err == nil && old(has(s.known, h.SessionID))) ==> h.SeqNo > old(s.known[h.SessionID].header.SeqNo)
-//@   ensures[C08] (err == nil && old(has(s.known, h.SessionID))) ==> res == old(s.known[h.SessionID].Handler)
-//@   ensures[C08] (err == nil && !old(has(s.known, h.SessionID))) ==> res == nil
+//@   ensures[C08,C09] (err == nil && old(has(s.known, h.SessionID))) ==> res == old(s.known[h.SessionID].Handler)
+//@   ensures[C08,C09] (err == nil && !old(has(s.known, h.SessionID))) ==> res == nil
 //@   ensures[C08,C09] sameExcept(s.known, h.SessionID)
 //@   ensures[C08,C09] err == nil ==> has(s.known, h.SessionID) == old(has(s.known, h.SessionID)) && len(s.known) == old(len(s.known))
 //@   ensures[C20] ghost.gauge[sessionsActive] - len(s.known) == old(ghost.gauge[sessionsActive] - len(s.known))
@@ -641,7 +641,7 @@ package tacquito
 //@   requires s != nil && wfSessions(s)
 //@   modifies s.known, ghost.gauge
 //@   ensures wfSessions(s)
-//@   ensures[C08] has(s.known, h.SessionID) && s.known[h.SessionID].header == h && s.known[h.SessionID].Handler == n
+//@   ensures[C08,C09] has(s.known, h.SessionID) && s.known[h.SessionID].header == h && s.known[h.SessionID].Handler == n
 //@   ensures[C08,C09] sameExcept(s.known, h.SessionID)
 //@   ensures[C20] !old(has(s.known, h.SessionID)) ==> ghost.gauge[sessionsActive] - len(s.known) == old(ghost.gauge[sessionsActive] - len(s.known))
 //@   ensures[C20] ghost.gauge == upd(old(ghost.gauge), sessionsActive, ghost.gauge[sessionsActive])
@@ -650,7 +650,7 @@ package tacquito
 //@   requires s != nil && wfSessions(s)
 //@   modifies s.known, ghost.gauge
 //@   ensures wfSessions(s)
-//@   ensures[C08] old(has(s.known, h.SessionID)) ==> has(s.known, h.SessionID) && s.known[h.SessionID].header == h && s.known[h.SessionID].Handler == n
+//@   ensures[C08,C09] old(has(s.known, h.SessionID)) ==> has(s.known, h.SessionID) && s.known[h.SessionID].header == h && s.known[h.SessionID].Handler == n
 //@   ensures[C08,C09] sameExcept(s.known, h.SessionID) && len(s.known) == old(len(s.known))
 //@   ensures[C20] ghost.gauge == old(ghost.gauge)
 
@@ -658,7 +658,7 @@ package tacquito
 //@   requires s != nil && wfSessions(s)
 //@   modifies s.known, ghost.gauge
 //@   ensures wfSessions(s)
-//@   ensures[C08] !has(s.known, session)
+//@   ensures[C08,C09] !has(s.known, session)
 //@   ensures[C08,C09] sameExcept(s.known, session)
 //@   ensures[C20] ghost.gauge[sessionsActive] - len(s.known) == old(ghost.gauge[sessionsActive] - len(s.known))
 //@   ensures[C20] ghost.gauge == upd(old(ghost.gauge), sessionsActive, ghost.gauge[sessionsActive])
@@ -682,11 +682,22 @@ package tacquito
 //@ func (s *Server) handle(ctx context.Context, c *crypter, h Handler)
 //@   ghostset rdFailed 0
 //@   after[C17] crypter.read : ghost.rdFailed = (ret1 != nil ? 1 : 0)
+//@   after[C09] sessions.get : ghost.gotH = ret0
+//@   before[C09] Handler.Handle : (ghost.gotH != nil ==> arg0 == ghost.gotH) && (ghost.gotH == nil ==> arg0 == h)
+//@   before[C09] Handler.Handle : typeOf(arg1) == *response && arg1.(*response) == resp
+//@   before[C09] Handler.Handle : fresh(resp)
+//@   before[C09] Handler.Handle : resp.header == req.Header && resp.next == nil
+//@   before[C09] Handler.Handle : arg2.Header == req.Header
+//@   before[C09] Handler.Handle : arg2.Body == req.Body
+//@   before[C09] sessions.get : arg0 == sessionProvider && arg1 == req.Header
+//@   before[C09] sessions.set : arg0 == sessionProvider && arg1 == req.Header
+//@   before[C09] sessions.update : arg0 == sessionProvider && arg1.SessionID == req.Header.SessionID && arg2 == resp.next
+//@   before[C09] sessions.delete : arg0 == sessionProvider && arg1 == req.Header.SessionID
 //@   requires s != nil && s.loggerProvider != nil && ctx != nil && h != nil
 //@   requires c != nil && c.Conn != nil && c.Reader != nil && !c.proxy
 //@   taints[C18] c.secret 4
 //@   requires[C05] ghost.sync == 1
-//@   modifies ghost.inPos, ghost.nwrites, ghost.written, ghost.md5acc, ghost.gauge, ghost.armed, ghost.dead, ghost.reads, ghost.handled, ghost.replies, ghost.closed, ghost.sync, ghost.hcalls, ghost.authorStatus, ghost.authenPass, ghost.acctStatus, ghost.sinkWrites, ghost.sinkAtReply, ghost.scopeArg, ghost.cmpOK, ghost.cmpCalls, ghost.lookups, ghost.lookedUp, ghost.rdFailed
+//@   modifies ghost.inPos, ghost.nwrites, ghost.written, ghost.md5acc, ghost.gauge, ghost.armed, ghost.dead, ghost.reads, ghost.handled, ghost.replies, ghost.closed, ghost.sync, ghost.hcalls, ghost.authorStatus, ghost.authenPass, ghost.acctStatus, ghost.sinkWrites, ghost.sinkAtReply, ghost.scopeArg, ghost.cmpOK, ghost.cmpCalls, ghost.lookups, ghost.lookedUp, ghost.rdFailed, ghost.gotH
 //@   ensures[C07,C17] ghost.closed == old(ghost.closed) + 1
 //@   ensures[C07] ghost.handled - old(ghost.handled) <= ghost.reads - old(ghost.reads)
 //@   ensures[C07] ghost.replies - old(ghost.replies) == ghost.handled - old(ghost.handled)
@@ -717,7 +728,7 @@ package tacquito
 //@   ensures[C18] true
 //@   requires s != nil && s.loggerProvider != nil && s.SecretProvider != nil && ctx != nil && conn != nil && !s.proxy
 //@   requires[C05] ghost.sync == 1
-//@   modifies s.waitGroup.active, ghost.inPos, ghost.nwrites, ghost.written, ghost.md5acc, ghost.gauge, ghost.armed, ghost.dead, ghost.reads, ghost.handled, ghost.replies, ghost.closed, ghost.wgDones, ghost.sync, ghost.hcalls, ghost.authorStatus, ghost.authenPass, ghost.acctStatus, ghost.sinkWrites, ghost.sinkAtReply, ghost.scopeArg, ghost.cmpOK, ghost.cmpCalls, ghost.lookups, ghost.lookedUp, ghost.rdFailed, ghost.admitted, ghost.pgets, ghost.admits
+//@   modifies s.waitGroup.active, ghost.inPos, ghost.nwrites, ghost.written, ghost.md5acc, ghost.gauge, ghost.armed, ghost.dead, ghost.reads, ghost.handled, ghost.replies, ghost.closed, ghost.wgDones, ghost.sync, ghost.hcalls, ghost.authorStatus, ghost.authenPass, ghost.acctStatus, ghost.sinkWrites, ghost.sinkAtReply, ghost.scopeArg, ghost.cmpOK, ghost.cmpCalls, ghost.lookups, ghost.lookedUp, ghost.rdFailed, ghost.gotH, ghost.admitted, ghost.pgets, ghost.admits
 //@   ensures[C17,C20] ghost.wgDones == old(ghost.wgDones) + 1
 //@   ensures[C07,C13,C17] ghost.closed == old(ghost.closed) + 1
 //@   ensures[C20] ghost.gauge == upd(old(ghost.gauge), waitgroupActive, old(ghost.gauge)[waitgroupActive] - 1)
